@@ -70,6 +70,8 @@ def all_cases(ctx):
         mk("replaceatomic", "mode", "small", "big", "explicit", seed=s),
         mk("createatomic", "present", "small", "big", "tmpdir", "srcerr", seed=s),
         mk("createatomic", "absent", "small", "small", "tmpdir", "srcerr", seed=s),
+        mk("createatomic", "present", "small", "big", "tmpdir", "srceof", seed=s),
+        mk("createatomic", "absent", "small", "small", "tmpdir", "srceof", seed=s),
         mk("fetch", "present", "small", "small", "tmpdir", "short", seed=s),
         mk("fetch", "present", "small", "big", "tmpdir", "shortstream", seed=s),
         mk("fetch", "absent", "small", "small", "tmpdir", "shortstream", seed=s),
@@ -105,6 +107,7 @@ def all_cases(ctx):
     quick.append(base[0])
     quick.append(base[1 + s % (len(base) - 1)])
     quick.append([c for c in extra if c["fault"] == "srcerr"][s % 2])
+    quick.append([c for c in extra if c["fault"] == "srceof"][(s + 1) % 2])
     quick.append([c for c in extra if c["fault"] == "shortstream"][s % 2])
     return quick, thorough
 
@@ -358,6 +361,19 @@ def run(ctx):
             todo.append(len(fault_scripts) - 1)
 
     lap("%d fault runs" % len(faults))
+    # (b2) the write after a crash: an earlier writer of the same destination was killed right before its publishing
+    # rename (what it had prepared is still lying around); the next, shorter write must publish exactly its own content
+    then_scripts = []
+    for sc, h in zip(full_scripts, full):
+        c = sc["case"]
+        # (primitives whose payload comes from memory: the copying ones read a prepared source file)
+        if c["prim"] in ("fstree", "createatomic", "writefile") and c["dst"] in ("present", "mode") and c["new"] in ("big", "small") \
+                and c["fault"] == "none":
+            rn = [p for p in fault_points(h, MUTATING) if p["op"] == "rename"]
+            if rn:
+                then_scripts.append({"case": c, "mode": "killthen", "sys": rn[-1]["sys"], "k": rn[-1]["k"], "j": rn[-1]["j"]})
+    thens = drive(ctx, binp, then_scripts)
+    lap("%d writes after a crash" % len(thens))
     # (c) concurrent readers
     rprims = ["writefile", "createatomic", "fstree", "symlink"] if quick else \
         ["writefile", "createatomic", "copyatomic", "replaceatomic", "fstree", "symlink"]
@@ -377,8 +393,8 @@ def run(ctx):
         nreads += st[0]["reads"]
 
     lap("%d reader runs" % len(readers))
-    scripts = full_scripts + fault_scripts + reader_scripts
-    hists = full + faults + readers
+    scripts = full_scripts + fault_scripts + reader_scripts + then_scripts
+    hists = full + faults + readers + thens
     ok, drift = judge(ctx, scripts, hists)
     lap("%d histories judged" % len(hists))
     if drift and not ctx.violations:
